@@ -13,9 +13,23 @@
 //!        subjects: null | e | n,n,..      targets: null | e | ep/cl/dt;..  (`-` = absent component)
 //!   grp <fab> <gid> <ep>                             => ok|err
 //!   gaux <fab> <gid> <0|1>                           => changed|same|err
+//!  the PRODUCTION mutators (Access Control cluster handler, Groups / Groupcast clusters, start-up):
+//!   acli <fab> <privbits> <c|g|p> <subjects> <targets> => <idx>|err     `Fabric::acl_add_init`
+//!   aclupd|aclupi <fab> <idx> <privbits> <c|g|p> <subjects> <targets> => ok|err   `acl_update` / `acl_update_init`
+//!   aclrm <fab> <idx>                                => ok|err          `acl_remove`
+//!   aclclr <fab>                                     => ok|err          `acl_remove_all`
+//!   grprm <fab> <ep> <gid|*>                         => yes|no|err      `Groups::remove`
+//!   gjoin <fab> <gid> <ep,ep,..|-> <0|1>             => ok|fail|err     `Groups::groupcast_join` (fail = its
+//!                                                       error; the table may have changed all the same)
+//!   gleave <fab> <gid>                               => yes|no|err      `Groups::groupcast_remove`
+//!   reload                                           => ok|err          `FabricPersist::store` of every fabric
+//!                                                       into a fresh KV store, then `Fabrics::load_persist`
 //!   q <fab> <p|c|g|n> <aux> <id> <cats|-> <ep|*> <cl|*> <leaf|*> <opbits> <perms|none> <dts|->
 //!                                                    => allow|deny <match_accessor bits|-> <match_access_desc bits|->
 //!   ep <fab> <p|c|g|n> <id> <endpoint>               => yes|no
+#[path = "c05_ops.rs"]
+pub(crate) mod c05_ops;
+
 use crate::proto::{parse_cases, Case, Out};
 use crate::rng::Rng;
 use crate::Args;
@@ -28,7 +42,9 @@ use rs_matter::acl::{
 };
 use rs_matter::dm::devices::test::{TEST_DEV_ATT, TEST_DEV_COMM, TEST_DEV_DET};
 use rs_matter::dm::{Access, DeviceType, Privilege};
-use rs_matter::fabric::{GROUP_ENDPOINTS_PER_FABRIC, MAX_FABRICS, MAX_GROUPS_PER_FABRIC};
+use rs_matter::error::Error;
+use rs_matter::fabric::{FabricPersist, GROUP_ENDPOINTS_PER_FABRIC, MAX_FABRICS, MAX_GROUPS_PER_FABRIC};
+use rs_matter::persist::KvBlobStore;
 use rs_matter::im::GenericPath;
 use rs_matter::transport::session::MAX_CAT_IDS_PER_NOC;
 use rs_matter::Matter;
@@ -51,6 +67,7 @@ pub(crate) fn opt_num<T: core::str::FromStr>(s: &str) -> Option<T> {
 }
 
 pub(crate) fn reset(matter: &Matter<'_>) {
+    c05_ops::kv_reset();
     matter.with_state(|state| {
         let idxs: Vec<NonZeroU8> = state.fabrics.iter().map(|f| f.fab_idx()).collect();
         for i in idxs {
@@ -85,6 +102,27 @@ fn build_entry(priv_bits: u8, mode: AuthMode, subjects: &str, targets: &str) -> 
         }
     }
     Some(e)
+}
+
+/// a KV store for `reload`
+#[derive(Default)]
+struct MapKv(std::cell::RefCell<std::collections::HashMap<u16, Vec<u8>>>);
+
+impl KvBlobStore for &MapKv {
+    fn load<'a>(&mut self, key: u16, buf: &'a mut [u8]) -> Result<Option<&'a [u8]>, Error> {
+        Ok(self.0.borrow().get(&key).map(|v| {
+            buf[..v.len()].copy_from_slice(v);
+            &buf[..v.len()]
+        }))
+    }
+    fn store(&mut self, key: u16, data: &[u8], _buf: &mut [u8]) -> Result<(), Error> {
+        self.0.borrow_mut().insert(key, data.to_vec());
+        Ok(())
+    }
+    fn remove(&mut self, key: u16, _buf: &mut [u8]) -> Result<(), Error> {
+        self.0.borrow_mut().remove(&key);
+        Ok(())
+    }
 }
 
 pub(crate) struct QStat {
@@ -153,6 +191,102 @@ pub(crate) fn run_op(matter: &Matter<'_>, op: &str, out: &mut Out) -> (String, O
                 Some(true) => "changed".into(),
                 Some(false) => "same".into(),
                 None => "err".into(),
+            }, None)
+        }
+        ["acli", fab, pb, mode, subjects, targets] => {
+            let r = (|| {
+                let fab = NonZeroU8::new(fab.parse::<u8>().ok()?)?;
+                let e = build_entry(pb.parse().ok()?, mode_of(mode)?, subjects, targets)?;
+                matter.with_state(|state| state.fabrics.fabric_mut(fab).ok()?.acl_add_init(e).ok())
+            })();
+            (match r {
+                Some(i) => i.to_string(),
+                None => "err".into(),
+            }, None)
+        }
+        [which @ ("aclupd" | "aclupi"), fab, idx, pb, mode, subjects, targets] => {
+            let r = (|| {
+                let fab = NonZeroU8::new(fab.parse::<u8>().ok()?)?;
+                let idx: usize = idx.parse().ok()?;
+                let e = build_entry(pb.parse().ok()?, mode_of(mode)?, subjects, targets)?;
+                matter.with_state(|state| {
+                    let f = state.fabrics.fabric_mut(fab).ok()?;
+                    if *which == "aclupd" { f.acl_update(idx, e).ok() } else { f.acl_update_init(idx, e).ok() }
+                })
+            })();
+            (if r.is_some() { "ok".into() } else { "err".into() }, None)
+        }
+        ["aclrm", fab, idx] => {
+            let r = (|| {
+                let fab = NonZeroU8::new(fab.parse::<u8>().ok()?)?;
+                let idx: usize = idx.parse().ok()?;
+                matter.with_state(|state| state.fabrics.fabric_mut(fab).ok()?.acl_remove(idx).ok())
+            })();
+            (if r.is_some() { "ok".into() } else { "err".into() }, None)
+        }
+        ["aclclr", fab] => {
+            let r = (|| {
+                let fab = NonZeroU8::new(fab.parse::<u8>().ok()?)?;
+                matter.with_state(|state| {
+                    state.fabrics.fabric_mut(fab).ok()?.acl_remove_all();
+                    Some(())
+                })
+            })();
+            (if r.is_some() { "ok".into() } else { "err".into() }, None)
+        }
+        ["grprm", fab, ep, gid] => {
+            let r = (|| {
+                let fab = NonZeroU8::new(fab.parse::<u8>().ok()?)?;
+                let ep: u16 = ep.parse().ok()?;
+                let gid: Option<u16> = if *gid == "*" { None } else { Some(gid.parse().ok()?) };
+                matter.with_state(|state| Some(state.fabrics.fabric_mut(fab).ok()?.groups_mut().remove(ep, gid)))
+            })();
+            (match r {
+                Some(true) => "yes".into(),
+                Some(false) => "no".into(),
+                None => "err".into(),
+            }, None)
+        }
+        ["gjoin", fab, gid, eps, replace] => {
+            let r = (|| {
+                let fab = NonZeroU8::new(fab.parse::<u8>().ok()?)?;
+                let gid: u16 = gid.parse().ok()?;
+                let eps: Vec<u16> = if *eps == "-" { Vec::new() } else { eps.split(',').map(|x| x.parse().ok()).collect::<Option<Vec<u16>>>()? };
+                matter.with_state(|state| Some(state.fabrics.fabric_mut(fab).ok()?.groups_mut().groupcast_join(gid, &eps, *replace == "1", None).is_ok()))
+            })();
+            (match r {
+                Some(true) => "ok".into(),
+                Some(false) => "fail".into(),
+                None => "err".into(),
+            }, None)
+        }
+        ["gleave", fab, gid] => {
+            let r = (|| {
+                let fab = NonZeroU8::new(fab.parse::<u8>().ok()?)?;
+                let gid: u16 = gid.parse().ok()?;
+                matter.with_state(|state| Some(state.fabrics.fabric_mut(fab).ok()?.groups_mut().groupcast_remove(gid)))
+            })();
+            (match r {
+                Some(true) => "yes".into(),
+                Some(false) => "no".into(),
+                None => "err".into(),
+            }, None)
+        }
+        ["reload"] => {
+            let kv = MapKv::default();
+            let r = (|| -> Result<(), Error> {
+                matter.with_state(|state| {
+                    for f in state.fabrics.iter() {
+                        FabricPersist::new(matter.kv(&kv)).store(f)?;
+                    }
+                    Ok::<_, Error>(())
+                })?;
+                let mut buf = vec![0u8; 32768];
+                matter.with_state(|state| state.fabrics.load_persist(&kv, &mut buf))
+            })();
+            (match r {
+                Ok(()) => "ok".into(),
+                Err(e) => format!("err:{:?}", e.code()),
             }, None)
         }
         ["q", fab, mode, aux, id, cats, ep, cl, leaf, opb, perms, dts] => {
@@ -244,7 +378,7 @@ pub(crate) fn run_op(matter: &Matter<'_>, op: &str, out: &mut Out) -> (String, O
                 Err(_) => ("panic".into(), None),
             }
         }
-        _ => ("badop".into(), None),
+        other => (c05_ops::run_op(matter, other, out).unwrap_or_else(|| "badop".into()), None),
     }
 }
 
@@ -254,7 +388,10 @@ fn run_case(matter: &Matter<'_>, out: &mut Out, case: &Case) {
     let mut allow = false;
     let mut deny = false;
     for op in &case.ops {
-        let (o, q) = run_op(matter, op, out);
+        let (o, q) = match std::panic::catch_unwind(std::panic::AssertUnwindSafe(|| run_op(matter, op, out))) {
+            Ok(r) => r,
+            Err(_) => ("panic".to_string(), None),
+        };
         out.op(op, &o);
         if let Some(q) = q {
             if !q.pase {
@@ -279,23 +416,23 @@ const CLUSTERS: [u32; 4] = [6, 8, 0x1F, 0x3E];
 const DEV_TYPES: [u32; 3] = [0x16, 0x100, 0x101];
 
 #[derive(Clone)]
-struct GEntry {
-    mode: char,
-    subjects: Option<Vec<u64>>,
-    targets: Option<Vec<(Option<u16>, Option<u32>, Option<u32>)>>,
+pub(crate) struct GEntry {
+    pub mode: char,
+    pub subjects: Option<Vec<u64>>,
+    pub targets: Option<Vec<(Option<u16>, Option<u32>, Option<u32>)>>,
 }
 
-struct GFab {
-    idx: u8,
-    entries: Vec<GEntry>,
-    groups: Vec<(u64, Vec<u16>)>,
+pub(crate) struct GFab {
+    pub idx: u8,
+    pub entries: Vec<GEntry>,
+    pub groups: Vec<(u64, Vec<u16>)>,
 }
 
 fn cat_subject(id: u32, ver: u32) -> u64 {
     NOC_CAT_SUBJECT_PREFIX | (((id as u64) << 16) | ver as u64)
 }
 
-fn declared_perms() -> Vec<u16> {
+pub(crate) fn declared_perms() -> Vec<u16> {
     vec![
         Access::RV.bits(),
         Access::RF.bits(),
@@ -335,6 +472,10 @@ fn gen_case(r: &mut Rng, out: &mut Out, uniform: bool, nq: usize) -> Vec<String>
     let mut ops: Vec<String> = Vec::new();
     let mut fabs: Vec<GFab> = Vec::new();
     let mut missing: Vec<u8> = vec![200, 255];
+    // `reload` (store + load_persist) is only generated for tables whose privileges are the five the
+    // Interaction Model can produce: the TLV encoding of `Privilege` goes through the 5-value enum
+    // (a raw bit pattern set through `AclEntry::new` is re-encoded, the empty one hits `unreachable!()`)
+    let mut all_canonical = true;
     // fabrics
     let nf = *r.pick(&[1usize, 2, 2, 3, 3, 4, 5, 6]);
     let mut next = 1u8;
@@ -368,6 +509,7 @@ fn gen_case(r: &mut Rng, out: &mut Out, uniform: bool, nq: usize) -> Vec<String>
             let mode = *r.pick(&['c', 'c', 'c', 'g', 'g', 'p']);
             let pb: u8 = if uniform || r.chance(1, 10) {
                 out.stat("entry_priv_raw_bits", 1);
+                all_canonical = false;
                 r.below(32) as u8
             } else {
                 out.stat("entry_priv_canonical", 1);
@@ -438,12 +580,89 @@ fn gen_case(r: &mut Rng, out: &mut Out, uniform: bool, nq: usize) -> Vec<String>
     if r.chance(1, 30) {
         ops.push(format!("acl {} 1 c null null", r.pick(&missing)));
     }
-    // queries
+    // churn through the PRODUCTION mutators (what the Access Control / Groups / Groupcast clusters and
+    // the start-up code call); the generator's picture of the entries (only used to aim queries) is
+    // kept roughly up to date
+    if !fabs.is_empty() && r.chance(2, 5) {
+        let specs: Vec<Vec<String>> = ops.iter().filter(|o| o.starts_with("acl ")).map(|o| o.split_whitespace().map(|x| x.to_string()).collect()).collect();
+        let n = r.range(1, 7);
+        for _ in 0..n {
+            let fi = r.below(fabs.len() as u64) as usize;
+            let fidx = if r.chance(1, 25) { *r.pick(&missing) } else { fabs[fi].idx };
+            let spec = if specs.is_empty() { None } else { Some(specs[r.below(specs.len() as u64) as usize].clone()) };
+            match r.below(100) {
+                0..=24 => {
+                    if let Some(sp) = spec {
+                        out.stat("churn_acl_add_init", 1);
+                        ops.push(format!("acli {} {} {} {} {}", fidx, sp[2], sp[3], sp[4], sp[5]));
+                    }
+                }
+                25..=44 => {
+                    if let Some(sp) = spec {
+                        out.stat("churn_acl_update", 1);
+                        let idx = r.below(fabs[fi].entries.len() as u64 + 2);
+                        ops.push(format!("{} {} {} {} {} {} {}", if r.chance(1, 2) { "aclupd" } else { "aclupi" }, fidx, idx, sp[2], sp[3], sp[4], sp[5]));
+                    }
+                }
+                45..=59 => {
+                    out.stat("churn_acl_remove", 1);
+                    let idx = r.below(fabs[fi].entries.len() as u64 + 2) as usize;
+                    ops.push(format!("aclrm {} {}", fidx, idx));
+                    if fidx == fabs[fi].idx && idx < fabs[fi].entries.len() {
+                        fabs[fi].entries.remove(idx);
+                    }
+                }
+                60..=63 => {
+                    out.stat("churn_acl_remove_all", 1);
+                    ops.push(format!("aclclr {}", fidx));
+                    if fidx == fabs[fi].idx {
+                        fabs[fi].entries.clear();
+                    }
+                }
+                64..=75 => {
+                    out.stat("churn_group_remove", 1);
+                    let gid = if r.chance(1, 3) { "*".to_string() } else { r.pick(&GROUP_IDS).to_string() };
+                    ops.push(format!("grprm {} {} {}", fidx, r.pick(&ENDPOINTS), gid));
+                }
+                76..=89 => {
+                    out.stat("churn_groupcast_join", 1);
+                    let k = r.below(5);
+                    let eps: Vec<String> = (0..k).map(|_| r.pick(&ENDPOINTS).to_string()).collect();
+                    ops.push(format!("gjoin {} {} {} {}", fidx, r.pick(&GROUP_IDS), if eps.is_empty() { "-".to_string() } else { eps.join(",") }, r.below(2)));
+                    if r.chance(1, 2) {
+                        ops.push(format!("gaux {} {} 1", fidx, r.pick(&GROUP_IDS)));
+                    }
+                }
+                90..=94 => {
+                    out.stat("churn_groupcast_remove", 1);
+                    ops.push(format!("gleave {} {}", fidx, r.pick(&GROUP_IDS)));
+                }
+                _ => {
+                    if all_canonical {
+                        out.stat("churn_reload", 1);
+                        ops.push("reload".into());
+                    }
+                }
+            }
+        }
+        if all_canonical && r.chance(1, 3) {
+            out.stat("churn_reload", 1);
+            ops.push("reload".into());
+        }
+    }
+    // the whole table as the real code holds it, against the model's
+    ops.push("dump".into());
+    gen_queries(r, out, &fabs, &missing, uniform, nq, &mut ops);
+    ops
+}
+
+/// `nq` queries against the fabrics `fabs` (the generator's view of the table)
+pub(crate) fn gen_queries(r: &mut Rng, out: &mut Out, fabs: &[GFab], missing: &[u8], uniform: bool, nq: usize, ops: &mut Vec<String>) {
     let perms_pool = declared_perms();
     for _ in 0..nq {
         if r.chance(1, 8) {
             // group reachability
-            let fab = if !fabs.is_empty() && r.chance(4, 5) { fabs[r.below(fabs.len() as u64) as usize].idx } else if r.chance(1, 2) { 0 } else { *r.pick(&missing) };
+            let fab = if !fabs.is_empty() && r.chance(4, 5) { fabs[r.below(fabs.len() as u64) as usize].idx } else if r.chance(1, 2) { 0 } else { *r.pick(missing) };
             let mode = *r.pick(&["g", "g", "g", "c", "p", "n"]);
             let mut id = *r.pick(&GROUP_IDS);
             if r.chance(1, 8) {
@@ -463,7 +682,7 @@ fn gen_case(r: &mut Rng, out: &mut Out, uniform: bool, nq: usize) -> Vec<String>
             (0, None)
         } else {
             out.stat("q_fabric_missing", 1);
-            (*r.pick(&missing), None)
+            (*r.pick(missing), None)
         };
         let aux = if r.chance(1, 5) { 1 } else { 0 };
         // directed: aim at one entry of the fabric (or of another fabric, to test separation)
@@ -545,7 +764,7 @@ fn gen_case(r: &mut Rng, out: &mut Out, uniform: bool, nq: usize) -> Vec<String>
                     mode = "g";
                     cats.clear();
                     id = g.0;
-                    if r.chance(4, 5) { ep = Some(*r.pick(&g.1)); }
+                    if r.chance(4, 5) && !g.1.is_empty() { ep = Some(*r.pick(&g.1)); }
                     if r.chance(4, 5) { aux = 1; }
                 }
             }
@@ -587,7 +806,6 @@ fn gen_case(r: &mut Rng, out: &mut Out, uniform: bool, nq: usize) -> Vec<String>
             if dts.is_empty() { "-".to_string() } else { dts.iter().map(|c| c.to_string()).collect::<Vec<_>>().join(",") },
         ));
     }
-    ops
 }
 
 fn caps_line() -> String {
@@ -625,7 +843,7 @@ pub fn gen(a: &Args) -> String {
         out.buf.push_str("#rule one case = a node configuration (1..5 fabrics with removed/missing indices, 0..4 ACL entries each: privilege x auth mode x null/empty/non-empty subjects x null/empty/non-empty targets of all 8 endpoint/cluster/device-type shapes, group tables) built through the real API, then queries (accessor fabric in {0, existing, missing}, mode PASE/CASE/Group/none, up to 4 tags with version above/equal/below an entry's, operation, declared and random access bits) mostly aimed at one entry with single-aspect deviations; 1 case in 5 is uniform over raw bit patterns; non-trivial = the non-PASE queries of the case produced both allow and deny\n");
         let n_cases: u64 = if thorough { 120000 } else { 12000 };
         // case 0: the capacities the model assumes
-        run_case(matter, &mut out, &Case { id: 0, kind: "acl caps".into(), ops: vec![caps_line()] });
+        run_case(matter, &mut out, &Case { id: 0, kind: "acl caps".into(), ops: vec![caps_line(), c05_ops::enums_line()] });
         for id in 1..=n_cases {
             let mut cr = r.fork();
             let uniform = cr.chance(1, 5);
@@ -633,6 +851,15 @@ pub fn gen(a: &Args) -> String {
             out.stat(if uniform { "kind_uniform" } else { "kind_directed" }, 1);
             let ops = gen_case(&mut cr, &mut out, uniform, nq);
             run_case(matter, &mut out, &Case { id, kind: if uniform { "acl uniform".into() } else { "acl directed".into() }, ops });
+        }
+        // histories of the production mutators (ACL cluster handler, init / update / remove, group
+        // table, persist -> load round trips, fail-safe roll-back), every answer compared and the
+        // table dumped after every operation
+        let n_hist: u64 = if thorough { 40000 } else { 4000 };
+        for id in n_cases + 1..=n_cases + n_hist {
+            let mut cr = r.fork();
+            out.stat("kind_history", 1);
+            c05_ops::gen_hist_case(matter, &mut cr, &mut out, id, thorough);
         }
         out.finish()
     })
